@@ -8,6 +8,7 @@ import SciVerif.Lemmas.C17j
 import SciVerif.Lemmas.C17k
 import SciVerif.Lemmas.C17l
 import SciVerif.Lemmas.C17m
+import SciVerif.Lemmas.C17n
 import SciVerif.Generated.C17Units
 
 /-!
@@ -784,6 +785,79 @@ example :
      | .error _ => false) = true := by
   refine ⟨by decide +kernel, by decide +kernel, ⟨_, rfl, by decide +kernel, by decide +kernel⟩, by decide +kernel,
     by decide +kernel, ⟨_, rfl, by decide +kernel, by decide +kernel⟩, by decide +kernel⟩
+
+/-- DECLARED nodes inside the invariant.  `InvD` weakens `Inv`: a stored node of the main
+    environment may hold no value (`a float` without `=`); if it holds one, the value conforms.
+    `Inv` implies `InvD`, and `InvD` of an environment whose nodes all hold a value is `Inv`
+    (so the result of a declare-then-assign program can serve the other refinement theorems).
+    `invDB` is `InvD` as a computation (sound and complete). -/
+theorem C17_declared_invariant (tbl : UnitTable) (env : Env) :
+    (Inv tbl env → InvD tbl env) ∧
+    (InvD tbl env → (∀ n ∈ env.nodes, n.value.isSome = true) → Inv tbl env) ∧
+    (invDB tbl env = true ↔ InvD tbl env) :=
+  ⟨inv_invD, invD_inv, invDB_iff tbl env⟩
+
+/-- Step refinement for the statements that create and fill declared nodes, from ANY environment
+    with the weak invariant `InvD` (declared nodes may be present): a declaration `path kw[dims] unit`
+    (line record `declNode`: no raw value, flagged to-be-defined), a definition with a literal
+    value, a modification with a literal value — which may address a node that holds no value yet
+    (`modify_value` casts the new value by the target's type and dimension and converts it into
+    the target's unit; the old value is not looked at).  Whenever the specification accepts the
+    statement, the main loop accepts its line, the abstraction of the new environment is the
+    specification's, and `InvD` holds again. -/
+theorem C17_refinement_declared_step (tbl : UnitTable) (env : Env) (hinv : InvD tbl env) (stmt : SStmt)
+    (item : Item) (s' : SEnv) (hfrag : LitFrag stmt) (hc : concD stmt = some item)
+    (h : sStep tbl (absEnv env) stmt = .ok s') :
+    ∃ env', step tbl env item = .ok env' ∧ absEnv env' = s' ∧ InvD tbl env' :=
+  refine_stepD tbl env hinv stmt item s' hfrag hc h
+
+/-- Proved part, programs with declared nodes, through the whole parse.  Hypotheses about
+    environment and program are computations (`invDB`, `litFragB`: flat lines — declarations,
+    literal definitions, literal modifications —, well-formed paths, typed keywords, integers
+    without unit).  Whenever the specification accepts the statements (result `s'`): the main loop
+    accepts the lines and ends in `env'` with `absEnv env' = s'` and `invDB`; `parse` and `parseC`
+    (main loop with `@case` state + final validation) both equal `validate env'`; and if `s'` leaves
+    no node without value, the validation passes and the STRONG invariant `invB` holds for `env'`.
+    Missing from `C17_refinement_statement` for declared nodes: nested lines (hierarchy), values by
+    reference (an injection from a declared node is outside the specification; an import that
+    copies or lands on a declared node is not covered), property lines. -/
+theorem C17_refinement_declared_partial (tbl : UnitTable) (stmts : List SStmt) (items : List Item)
+    (env : Env) (s' : SEnv) (hinv : invDB tbl env = true) (hchk : stmts.all litFragB = true)
+    (hc : stmts.mapM concD = some items) (h : sRun tbl (absEnv env) stmts = .ok s') :
+    ∃ env', items.foldlM (step tbl) env = .ok env' ∧ absEnv env' = s' ∧ invDB tbl env' = true ∧
+      parse tbl env items = validate env' ∧ parseC tbl env items = validate env' ∧
+      ((∀ n ∈ s'.nodes, n.value.isSome = true) → validate env' = .ok env' ∧ invB tbl env' = true) := by
+  have hfrag : ∀ s ∈ stmts, LitFrag s := by
+    intro s hs
+    exact (litFragB_iff s).1 (List.all_eq_true.1 hchk s hs)
+  obtain ⟨env', h1, h2, h3, h4, h5, h6⟩ := refine_parseD tbl stmts items env s' ((invDB_iff tbl env).1 hinv) hfrag hc h
+  refine ⟨env', h1, h2, (invDB_iff tbl env').2 h3, h4, h5, ?_⟩
+  intro hv
+  exact ⟨(h6 hv).1, (invB_iff tbl env').2 (h6 hv).2⟩
+
+/-- the final validation loop of the model, exactly: it passes iff no to-be-defined node is left
+    without value -/
+theorem C17_validate_exact (env : Env) :
+    validate env = .ok env ↔ ∀ n ∈ env.nodes, n.defined = true → n.value.isSome = true :=
+  validate_ok_iff env
+
+/-- non-vacuity: from an environment that already holds a declared node `d bool` (refused by
+    `invB`, accepted by `invDB`), the program `a float m` / `b int = 2` / `a = 300 cm` / `d = true`
+    passes the checks, the specification accepts it and leaves every node with a value; after
+    `a float m` alone a node without value is left -/
+example :
+    let env : Env := { Env.empty with nodes := [{ blank ['d'] .bool with defined := true }] }
+    let stmts : List SStmt := [.decl [['a']] .float [] (some ['m']), .defn [['b']] .int [] (.lit (.num 2)) none,
+      .modl [['a']] (.lit (.num 300)) (some ['c', 'm']), .modl [['d']] (.lit (.bool true)) none]
+    invB unitTable env = false ∧ invDB unitTable env = true ∧ stmts.all litFragB = true ∧
+    (stmts.mapM concD).isSome = true ∧
+    (match sRun unitTable (absEnv env) stmts with
+     | .ok s' => s'.nodes.all (fun n => n.value.isSome)
+     | .error _ => false) = true ∧
+    (match sRun unitTable (absEnv env) (stmts.take 1) with
+     | .ok s' => s'.nodes.all (fun n => n.value.isSome)
+     | .error _ => true) = false := by
+  decide +kernel
 
 /-- The case the import side condition of `InFrag` excludes, as a theorem of its own: when the
     specification's import selects no node — it then records `mayReject`, i.e. allows the program
